@@ -334,7 +334,7 @@ def make_enabled(tier):
     return enabled
 
 
-OBSERVATIONS = ['positions', 'displacements', 'distances', 'meta', 'filter-then-positions', 'slice-then-positions']
+OBSERVATIONS = ['positions', 'displacements', 'distances', 'meta', 'filter-then-positions', 'slice-then-positions', 'metrics']
 
 
 def observe(build, hist):
@@ -372,6 +372,20 @@ def observe(build, hist):
                         viols.append(('length-or-species-differ-from-reference', f'object {i}: len {len(t)} species {t.species} vs {len(r.pos)} {r.syms}'))
                     if not np.allclose(np.asarray(t.get_lattice().matrix), r.M, atol=1e-12) or t.time_step != r.dt or dict(t.metadata) != r.meta:
                         viols.append(('lattice-timestep-or-metadata-differ', f'object {i}: dt={t.time_step} meta={t.metadata}'))
+                elif q == 'metrics' and r.syms != ['X']:
+                    un = np.cumsum(r.steps(), axis=0) @ r.M  # unwrapped Cartesian displacement from frame 0
+                    T = len(r.pos)
+                    ownD = float(np.mean(np.sum(un[-1] ** 2, axis=-1))) * 1e-20 / (6 * T * r.dt)
+                    D = float(t.metrics().tracer_diffusivity(dimensions=3))
+                    if abs(D - ownD) > 1e-9 * max(abs(ownD), 1e-20 / (T * r.dt) * 1e-6):
+                        viols.append(('tracer-diffusivity-differs-from-reference', f'object {i}: {D} vs {ownD} (frames {T})'))
+                    msd = np.asarray(t.mean_squared_displacement())
+                    own = np.zeros((un.shape[1], T))
+                    for lag in range(T):
+                        dd = un[lag:] - un[: T - lag]
+                        own[:, lag] = np.mean(np.sum(dd**2, axis=-1), axis=0)
+                    if msd.shape != own.shape or not np.allclose(msd, own, rtol=1e-9, atol=1e-9):
+                        viols.append(('msd-differs-from-reference', f'object {i}: shape {msd.shape} vs {own.shape}'))
                 elif q == 'filter-then-positions' and 'Li' in r.syms:
                     p = np.array(t.filter('Li').positions)
                     mask = [s == 'Li' for s in r.syms]
